@@ -30,7 +30,20 @@ Fixpoint run_queries (sb : SigBits) (qs : list (Z * Z * Z)) : option (list (Z * 
 Inductive sstep : Type :=
 | QCount (s e m : Z)
 | QShard (maxSize : Z)
-| QFdb.
+| QFdb
+| QRepeat (n s e m : Z).   (* the same CountPrefixes query n times in a row, only the last answer is kept *)
+
+(** the literal loop: [n+1] calls, the last answer; the object is not changed by a call, so this is
+    the answer of one call ([repeat_last_once] in Proofs/SigbitsSessionProofs.v) and [run_session]
+    evaluates a repeated block once *)
+Fixpoint repeat_last (n : nat) (sb : SigBits) (s e m : Z) : option (Z * list Z) :=
+  match n with
+  | O => CountPrefixes sb s e m
+  | S n' => match CountPrefixes sb s e m with
+            | Some _ => repeat_last n' sb s e m
+            | None => None
+            end
+  end.
 
 Fixpoint run_session (keys : list (list Z)) (sb : SigBits) (steps : list sstep) : option (list (Z * list Z)) :=
   match steps with
@@ -40,6 +53,7 @@ Fixpoint run_session (keys : list (list Z)) (sb : SigBits) (steps : list sstep) 
                | QCount s e m => CountPrefixes sb s e m
                | QShard ms => match ShardByPrefix keys ms with Some _ => Some (0, []) | None => None end
                | QFdb => match FirstDiffBits keys with Some ds => Some (0, ds) | None => None end
+               | QRepeat n s e m => if n <? 1 then None else CountPrefixes sb s e m
                end in
       match r, run_session keys sb t with
       | Some r, Some rs => Some (r :: rs)
